@@ -58,6 +58,9 @@ func (FixedWindow) New(cfg Config) fiber.Handler {
 		// Increment hits
 		e.currHits++
 
+		// Remember the window that counts this request
+		windowExp := e.exp
+
 		// Calculate when it resets in seconds
 		resetInSec := e.exp - ts
 
@@ -90,9 +93,12 @@ func (FixedWindow) New(cfg Config) fiber.Handler {
 			// Lock entry
 			mux.Lock()
 			e = manager.get(key)
-			e.currHits--
-			remaining++
-			manager.set(key, e, cfg.Expiration)
+			// Un-count the request only in the window that counted it
+			if e.exp == windowExp {
+				e.currHits--
+				remaining++
+				manager.set(key, e, cfg.Expiration)
+			}
 			// Unlock entry
 			mux.Unlock()
 		}
